@@ -2,11 +2,11 @@
 
 
 def register(add):
-    XW = 'md_xmd_sh256_wrapped_for_contract_checking'    # loop ids: 0-7 and 9-13 are the RLC_THROW macro loops, 8 the xor loop (32), 14 the block loop
+    XW = 'md_xmd_sh256_wrapped_for_contract_checking'    # loop ids: 0-7 and 9-13 are the RLC_THROW macro loops, 8 the xor loop (32), 14 the block loop (13 and 15 are named too: one call site more or less shifts the ordinal)
     XR = ['SHA256Reset/SHA256Reset_x', 'SHA256Input/SHA256Input_x', 'SHA256Result/SHA256Result_x']
     add('md_xmd_sh256', ['C14', 'C08'], 'md_xmd_sh256', sources=['src/md/relic_md_xmd.c'], headers=['c14x_xmd.h', 'c14x_xmd_state.h'], conf='base', route='bounded',
         decls='uint8_t *buf; const uint8_t *in, *dst; int buf_len, in_len, dst_len;', call='md_xmd_sh256(buf, buf_len, in, in_len, dst, dst_len)',
-        replace=XR, unwind=34, unwindset=[XW + '.14:5'], flags=['--object-bits', '10', '--sat-solver', 'cadical'], timeout=600,
+        replace=XR, unwind=34, unwindset=[XW + '.13:5', XW + '.14:5', XW + '.15:5'], flags=['--object-bits', '10', '--sat-solver', 'cadical'], timeout=600,
         bound_note='requested length <= 96 bytes (ell <= 3, including truncated last blocks) or any rejected length (negative, > 255 blocks); message <= 1000 bytes; DST <= 300 bytes (valid range 0..255 complete); block loop unwound completely',
         note='streaming hash abstract (SHA256Reset/Input/Result replaced): records per hash computation the length and the byte at the ghost position, returns ghost digests and a nondeterministic verdict')
 
@@ -15,7 +15,7 @@ def register(add):
     AN = 'AES block function abstract (rijndaelEncrypt/rijndaelDecrypt replaced): records key schedule, round count, buffers and the 16 input bytes of each call, returns ghost blocks'
     add('padEncrypt', ['C14', 'C08'], 'padEncrypt', sources=AS, headers=AH, conf='base', route='bounded', unwind=18, timeout=600,
         decls='cipherInstance *ci; keyInstance *ki; BYTE *in, *out; int n;', call='padEncrypt(ci, ki, in, n, out)',
-        replace=['rijndaelEncrypt/rijndaelEncrypt_a'], flags=['--object-bits', '9', '--sat-solver', 'cadical'], unwindset=['padEncrypt_wrapped_for_contract_checking.1:4'],
+        replace=['rijndaelEncrypt/rijndaelEncrypt_a'], flags=['--object-bits', '9'], unwindset=['padEncrypt_wrapped_for_contract_checking.1:4'],
         bound_note='CBC mode; every int length <= 40 bytes (0, 1, 2 complete blocks and every remainder; <= 0: nothing to do); output buffer of exactly the ciphertext length; loops unwound completely', note=AN)
     add('padDecrypt', ['C14', 'C08'], 'padDecrypt', sources=AS, headers=AH, conf='base', route='bounded', unwind=18, timeout=600,
         decls='cipherInstance *ci; keyInstance *ki; BYTE *in, *out; int n;', call='padDecrypt(ci, ki, in, n, out)',
